@@ -47,6 +47,60 @@ VDRIVE_OP(lts)
 	return res;
 }
 
+// ---------------------------------------------------------------- step-level binding of the Layer-2 model LtsSim
+// {"op":"ltstrace", ...as "lts"...}: runs the engine with the guarded step hook installed; returns the events (Start with the
+// input as the engine sees it, one Process per queue element handled) followed by the relation returned (all states).
+#include "util/verif_hook.hh"
+namespace {
+std::vector<std::string>* g_ltsSink = nullptr;
+void ltsSink(const std::string& s) { if (g_ltsSink) { g_ltsSink->push_back(s); } }
+}
+
+VDRIVE_OP(ltstrace)
+{
+	size_t n = c.at("n").get<size_t>();
+	VATA::ExplicitLTS lts(n);
+	for (const json& e : c.at("edges"))
+	{
+		lts.addTransition(e.at(0).get<size_t>(), e.at(1).get<size_t>(), e.at(2).get<size_t>());
+	}
+	lts.init();
+	std::vector<std::vector<size_t>> part;
+	VATA::Util::BinaryRelation rel;
+	if (c.contains("part"))
+	{
+		for (const json& b : c["part"]) { part.push_back(b.get<std::vector<size_t>>()); }
+		rel.resize(part.size());
+		rel.reset(false);
+		for (size_t i = 0; i < part.size(); ++i)
+		{
+			for (size_t j = 0; j < part.size(); ++j) { rel.set(i, j, c["rel"].at(i).at(j).get<int>() != 0); }
+		}
+	}
+	std::vector<std::string> events;
+	g_ltsSink = &events;
+	VATA::Util::Verif::Sink() = ltsSink;
+	VATA::Util::BinaryRelation out;
+	try { out = c.contains("part") ? lts.computeSimulation(part, rel, n) : lts.computeSimulation(n); }
+	catch (...) { VATA::Util::Verif::Sink() = nullptr; g_ltsSink = nullptr; throw; }
+	VATA::Util::Verif::Sink() = nullptr;
+	g_ltsSink = nullptr;
+	json evs = json::array();
+	for (const std::string& s : events) { evs.push_back(json::parse(s)); }
+	json done;
+	done["e"] = "Result";
+	json pairs = json::array();
+	for (size_t q = 0; q < out.size(); ++q)
+	{
+		for (size_t r = 0; r < out.size(); ++r) { if (out.get(q, r)) { pairs.push_back(json::array({q, r})); } }
+	}
+	done["pairs"] = pairs;
+	evs.push_back(done);
+	json res;
+	res["events"] = evs;
+	return res;
+}
+
 // ---------------------------------------------------------------- large-LTS arm for C16
 // {"op":"ltsagree","seed":S,"count":N}: seeded random LTSs with 10-45 states and 2-5 labels (enough (label, state) pairs for
 // several rows of the engine's counter table), random partition / preorder.  The result is screened HERE for
